@@ -324,6 +324,64 @@ def run(ctx):
         r.note("parse() no longer generates hidden argument names in a loop")
     ctx.borrow("c07", "C07-R2", "C01-R13", "'everything not given reports its default': a declared default is kept whenever one is given (`is not None` - 0, False and '' are "
                "defaults too) and the declared value mode is the one the parser consults")
+    ctx.borrow("c07", "C07-R13", "C01-R15", "'values converted to the declared types': a value of the declared type is converted to itself - in the converters the test for the more "
+               "specific type precedes the arm for its base type (a bool default of a BOOLEAN option is a bool, not the int it also is) (same rule as C07-R13)")
+
+    # ---------------------------------------------------------------- R14
+    r = ctx.rule("C01-R14", "KEY", "'access by long name, short name or position agrees': the parser's own option map is keyed by the long name - every key stored into it is "
+                 "`<declaration>.long_name`, text cut from a '--' token, or a parameter that every call site binds to one of those (a short spelling is translated before it is stored)", reference=2)
+
+    def canon_key(fn, e, depth=0):
+        if depth > 5:
+            return False, norm(e)
+        if isinstance(e, ast.Attribute) and e.attr == "long_name":
+            return True, ""
+        if isinstance(e, ast.Subscript) and isinstance(e.slice, ast.Slice):
+            lo = e.slice.lower
+            if isinstance(lo, ast.Constant) and lo.value == 2 and e.slice.upper is None:
+                return True, ""  # the text after '--'
+            if lo is None or (isinstance(lo, ast.Constant) and lo.value == 0):
+                return canon_key(fn, e.value, depth + 1)  # a prefix of it (up to '=')
+            return False, norm(e)
+        if isinstance(e, ast.Name):
+            if e.id in fn.params:
+                idx = [a for a in fn.params if a != "self"].index(e.id)
+                sites = [(o, c) for o in parser.methods.values() for c in q.method_calls(o, fn.name, recv=lambda x: isinstance(x, ast.Name) and x.id == "self")]
+                if not sites:
+                    return False, "%s (no call site)" % e.id
+                for o, c in sites:
+                    a = c.args[idx] if idx < len(c.args) else next((k.value for k in c.keywords if k.arg == e.id), None)
+                    if a is None:
+                        return False, "%s unbound in %s" % (e.id, o.short)
+                    ok_, why = canon_key(o, a, depth + 1)
+                    if not ok_:
+                        return False, "%s <- %s in %s" % (e.id, why or norm(a), o.short)
+                return True, ""
+            defs = [n.value for n in walk_no_nested(fn.node) if isinstance(n, ast.Assign) and any(isinstance(t, ast.Name) and t.id == e.id for t in n.targets)]
+            if not defs:
+                return False, norm(e)
+            for d in defs:
+                ok_, why = canon_key(fn, d, depth + 1)
+                if not ok_:
+                    return False, why or norm(d)
+            return True, ""
+        return False, norm(e)
+
+    n14 = 0
+    for name, m in sorted(parser.methods.items()):
+        for n in walk_no_nested(m.node):
+            subs = []
+            if isinstance(n, ast.Assign):
+                subs = [t for t in n.targets if isinstance(t, ast.Subscript) and is_self_attr(t.value) and "option" in t.value.attr]
+            for sub in subs:
+                n14 += 1
+                ok_, why = canon_key(m, sub.slice)
+                if ok_:
+                    r.ok("%s: %s keyed by the long name" % (m.short, norm(sub)))
+                else:
+                    r.fail(m, sub, "%s can be keyed by a short name" % norm(sub), "%s stores an option value under %s, which can be a short name (%s): the same option spelled '-x' and '--long' in one line is "
+                           "kept under two keys - a multi-valued option loses the values of one spelling, a repeated option is not overridden" % (m.short, norm(sub.slice), why))
+    ctx.require(n14 >= 1, "the parser no longer stores option values in an attribute of its own")
     return ctx.results
 
 
